@@ -969,6 +969,9 @@ func (st *c05State) collectHostX(e *c05Extra, dump string) (hcases []string) {
 		st.distinct.add("hostx", e.hx.kind, p.Desc, strings.Join(p.ImplY, ","), strings.Join(p.ImplG, ","), p.Code)
 		in := map[string]any{"level": "hostx", "kind": e.hx.kind, "probe": p.Label, "consumer": p.Consumer.Name, "class": p.Consumer.Cls,
 			"methods (yaegi)": p.ImplY, "method set (Go)": p.ImplG, "expr": p.Code}
+		if p.Cell != nil {
+			in["cell"] = p.Cell
+		}
 		if len(sm.CaseIndex) < c05MaxIndex {
 			sm.CaseIndex[fmt.Sprint(id)] = in
 		}
